@@ -48,19 +48,39 @@ def _self_helper_inliner(ctx, fn: FuncInfo):
     parameters are passed under their own names (so no renaming is needed) and that returns nothing."""
     repo = ctx.repo
 
-    def inl(call: ast.Call):
+    caller_locals = {n.id for n in ast.walk(fn.node) if isinstance(n, ast.Name) and isinstance(n.ctx, ast.Store)}
+
+    def inl(call: ast.Call, target: ast.AST = None):
         if not (isinstance(call.func, ast.Attribute) and isinstance(call.func.value, ast.Name) and call.func.value.id == 'self' and fn.cls is not None):
             return None
         m = repo.resolve_method(fn.cls, call.func.attr)
         if m is None or m is fn or m.name in ('Calculate', 'read_parameters', '__init__'):
             return None
         params = [a.arg for a in m.node.args.args][1:]
-        args = [norm(a) for a in call.args]
-        if call.keywords or args != params:
+        if call.keywords or len(call.args) != len(params):
             return None
-        if any(isinstance(n, ast.Return) and n.value is not None for n in ast.walk(m.node)):
+        body = [s_ for s_ in m.node.body if not (isinstance(s_, ast.Expr) and isinstance(s_.value, ast.Constant))]
+        rets = [n for n in ast.walk(m.node) if isinstance(n, ast.Return) and n.value is not None]
+        if target is None:
+            # statement call: parameters must be passed under their own names, nothing returned
+            if [norm(a) for a in call.args] != params or rets:
+                return None
+            return body
+        # `target = self.helper(args)`: parameters become locals, a single trailing `return e` becomes `target = e`
+        if len(rets) != 1 or not body or body[-1] is not rets[0]:
             return None
-        return list(m.node.body)
+        pre = []
+        for p_, a_ in zip(params, call.args):
+            if norm(a_) == p_:
+                continue
+            if p_ in caller_locals:
+                return None                    # the parameter name would capture a local of the caller
+            asg = ast.Assign(targets=[ast.Name(id=p_, ctx=ast.Store())], value=a_, lineno=call.lineno, col_offset=0)
+            ast.fix_missing_locations(asg)
+            pre.append(asg)
+        fin = ast.Assign(targets=[target], value=rets[0].value, lineno=rets[0].lineno, col_offset=0)
+        ast.fix_missing_locations(fin)
+        return pre + body[:-1] + [fin]
     return inl
 
 
@@ -81,6 +101,19 @@ def _final(ctx, fn: FuncInfo, key: str, also: Tuple[str, ...] = ()):
             raise AnalysisError(f'{fn.qualname}: `{key}` definition outside the supported algebra: {e}')
         out.append((p, r))
     return out
+
+
+def _ritc_of_current_total(fn: FuncInfo, st: ast.stmt, r: Rat) -> bool:
+    """The credit value may be computed from a local that holds the pre-credit total (`credit = RITC * overnight_capex`): accept
+    RITC x Y where Y does not involve the rate again.  (That the total then is base x (1 - RITC) + fees is the path identity T1.)"""
+    k = 'self.RITC.value'
+    try:
+        if not r.d.is_const():
+            return False
+        y = Rat(r.n.coefficient_of(k), r.d)
+        return (y * Rat.atom(k)).equals(r) and k not in y.show(80) and not y.is_const()
+    except Exception:
+        return False
 
 
 def check_totals(ctx, fn: FuncInfo, tag: str) -> None:
@@ -111,10 +144,11 @@ def check_totals(ctx, fn: FuncInfo, tag: str) -> None:
     for st in ast.walk(fn.node):
         if isinstance(st, ast.Assign) and norm(st.targets[0]) == 'self.RITCValue.value':
             try:
-                r = Translator().tr(st.value)
+                from gxstat.inline import inline_block_locals
+                r = Translator().tr(inline_block_locals(st.value, st))
             except Unsupported as e:
                 raise AnalysisError(str(e))
-            ctx.check(r.equals(A('RITC') * A('CCap')), 'T1', f'{tag}/RITCValue', f'{rel}:{st.lineno}',
+            ctx.check(r.equals(A('RITC') * A('CCap')) or _ritc_of_current_total(fn, st, r), 'T1', f'{tag}/RITCValue', f'{rel}:{st.lineno}',
                       f'investment tax credit value is `{norm(st.value)}`, not rate x capital cost', fact='RITCValue = RITC * CCap')
     # ---------------------------------------------------------------- T2 Coam
     res = _final(ctx, fn, 'self.Coam.value')
